@@ -34,7 +34,8 @@ RULE = ('scenario = seeded budget (old / new layout, CRLF or LF settings, commen
         'cwd, pinned date); the golden run gives the effect trace and the list of files read; then: crash before every effect (cuts none/one/half/'
         'midline/midchar/line/minus1/all of the in-flight file), one OSError of every errno legal for the effect kind at every effect, '
         'KeyboardInterrupt at every effect, the disk staying full (ENOSPC) or read-only (EROFS) from every effect on, every path named by the trace '
-        'staying locked (EPERM/EACCES on every effect naming it), EACCES / EIO on every budget file the command read, and the complete prefix; '
+        'staying locked (EPERM/EACCES on every effect naming it), EACCES / EIO on every budget file the command read, the reader of stdout (and stderr) '
+        'going away after every effect (every later print fails with EPIPE), and the complete prefix; '
         'thorough adds depth 2.  distinct_nontrivial counts distinct (command class, normalised effect descriptor or path, fault kind, cut/errno '
         'class) placements that fired AND left the disk different from both the initial and the fully migrated tree.')
 
@@ -374,6 +375,9 @@ def run_cmd(root, ctlp, cmd, fault=None):
     if fault and fault.get('kind') == 'read-fault':
         plan['fault'] = None
         plan['reads'] = {fault['path']: fault['how']}
+    if fault and fault.get('kind') == 'stdout-broken':
+        plan['fault'] = None
+        plan['stdout_fault'] = {'after_effect': fault['after_effect'], 'stream': fault.get('stream', 'stdout'), 'errno': fault.get('errno', 'EPIPE')}
     return proc.run_cli(root, cmd['argv'], plan, cwd=cmd['cwd'], ctl_parent=ctlp)
 
 
@@ -517,6 +521,10 @@ def fault_plans(trace, rng, tier):
         # persistent conditions starting at this step: the disk stays full, or turns read-only
         plans.append({'kind': 'oserror-from', 'at': k, 'errno': 'ENOSPC'})
         plans.append({'kind': 'oserror-from', 'at': k, 'errno': 'EROFS'})
+    # whoever reads the command's output goes away (`tally ... | head`, a closed terminal) right after effect k: from then on every
+    # print fails with EPIPE - an I/O error raised between two file-system steps, in the middle of whatever the code was doing
+    for k in range(n):
+        plans.append({'kind': 'stdout-broken', 'after_effect': k, 'stream': 'both' if k % 3 == 2 else 'stdout'})
     # one path that stays locked / immutable for the whole run (every effect naming it fails)
     paths = []
     for e in trace:
@@ -626,7 +634,8 @@ def run_one(seed, i, tier, scratch):
             sets['post_fault_states'].add(info['sf_digest'])
             sets['shapes'].add(scn['class'] + ': ' + info['shape'])
             if info['sf_digest'] not in (s0d, s1d) and (f0 is None or info['fired'][0]):
-                e = trace[f0['at']] if f0 and f0.get('at') is not None and f0['at'] < len(trace) else None
+                at_ = (f0 or {}).get('at', (f0 or {}).get('after_effect'))
+                e = trace[at_] if f0 and at_ is not None and 0 <= at_ < len(trace) else None
                 if f0 and f0['kind'] == 'oserror-path':
                     e = {'k': 'path', 'path': f0['path']}
                 sets['placements'].add('%s|%s|%s|%s' % (scn['class'], effect_desc(e), kindname,
